@@ -18,7 +18,8 @@ CHECKS = {
  "C15": _e("Coq proof over Gallina model of tools.rs + differential correspondence (extracted model vs real code)",
   "Unbounded theorems (all N/Z values, all byte lists, widths 1-8 by exhaustive case split) for every clause of the property: "
   "shortest default encoding, fixed-width exactness/overflow, decode(encode)=id with arbitrary trailing bytes, decoder totality, "
-  "need-more exactly on proper prefixes, length bound and canonicity, signed fixed/default/round trip incl. width 8, signed/unsigned "
+  "need-more exactly on proper prefixes (C15_need_more_prefix: an iff with 'some non-empty suffix completes it to an encoding'; the signed decoder is the "
+  "unsigned one followed by a total subtraction: C15_signed_is_unsigned), length bound and canonicity, signed fixed/default/round trip incl. width 8, signed/unsigned "
   "length agreement, is_vint characterisation. The model is tied to src/tools.rs by running ~3*10^5 (quick) cases incl. exhaustive "
   "sub-spaces through the extracted model and the real functions in both overflow-check modes.",
   "Widths outside 1..8 are outside the property (code panics; model says Panic; not generated)."),
@@ -26,34 +27,45 @@ CHECKS = {
 PROVED = {
  "C16": ("Unbounded theorems for every clause: unsigned/signed/float decoders return the big-endian / two's-complement sign-extended / IEEE value for "
          "lengths 0-8 (empty = 0) resp. 4 and 8, the error otherwise, never panic; and they invert the writer's payload encoders "
-         "(Writer.write_element: minimal 1/2/4/8-byte width) for every u64 / i64 / f64 bit pattern. Tied to src/tools.rs and tag_writer.rs by "
+         "(Writer.write_element: minimal 1/2/4/8-byte width — C16_writer_sint_minimal / _fits, C16_writer_uint_fits) for every u64 / i64 / f64 bit pattern "
+         "(floats are bit patterns; the f32 widening widen32 is specified by the correspondence run only; C16_total holds by the shape of the model). Tied to src/tools.rs and tag_writer.rs by "
          "exhaustive runs on all slices of 0-2 bytes, boundary/random slices, and write-then-read of boundary values.", ""),
  "C11": ("Theorems: the matcher path_matches decides the declarative pattern semantics Matches (named parent = exactly that master, (min-max) = "
          "between min and max arbitrary masters, whole chain consumed) for every path and chain; the writer's check accepts iff the chain of open "
-         "masters matches, is applied to every non-End tag of a known id under every option, and a rejection is UnexpectedTag{id, chain} with the state "
+         "masters matches, is applied to every non-End tag of a known id (except the combination unknown-size option on a non-master, which gets the size error first), and a rejection is UnexpectedTag{id, chain} with the state "
          "unchanged; the reader judges an element against the chain that remains after the unknown-size masters it closes, where the closed count is "
          "proved to be the declarative closing rule (largest k: k innermost masters unknown-size, outermost of them ended by the element); the reader's "
-         "HierarchyError carries the id at the cursor and the innermost open master and is reported exactly when the remaining chain does not match "
-         "(C11_reader_error_fields). The call sites are additionally tied by correspondence (every id x reachable chains, incl. paths with several "
+         "HierarchyError carries the id at the cursor and the innermost open master and is reported ONLY when the remaining chain does not match "
+         "(C11_reader_error_fields); conversely (C11_reader_reports / C11_reader_error_iff, Proofs/AuditErrKinds.v) once the document position is determined "
+         "a mismatch IS reported whenever the earlier header checks pass. While the position is undetermined (a mid-document start: nothing but global "
+         "elements read so far) an element with a placeholder path is not judged — C11_unchecked_while_undetermined, C11_undetermined_counterexample; the "
+         "reader cannot know the ancestors there, which is why this is read as outside the property's 'chain of open masters'. The call sites are additionally tied by correspondence (every id x reachable chains, incl. paths with several "
          "placeholders, brute-force pattern oracle).", ""),
  "C09": ("Theorems: deprecated unknown-size call = option-based call (definitional in the fixed code); a Full item is buffered as its Start (same "
          "options), its children, its End; an element write appends exactly id ++ size field ++ payload where the payload depends on the value only "
          "and an explicit width w gives a size field of exactly w bytes; write_all delivers exactly the data for every write script without a hard "
          "error. Whole documents (Proofs/WriteEnc.v, WriteFull.v): a conforming document written tag by tag (any widths, unknown size by option) and the same "
          "document with every master given as one Full item both yield exactly the structural encoding enc_forest: byte-identical output for the two "
-         "presentations although the separate calls flush in between (C09_full_equals_separate); C09_mixed_encodes / C09_presentation_irrelevant "
+         "presentations although the separate calls flush in between (C09_full_equals_separate: default options, every master of known size); the width flag "
+         "d of these theorems is per document (all defaults or all explicit widths); C09_mixed_encodes / C09_presentation_irrelevant "
          "(Proofs/WriteMixed.v): the same for ARBITRARY MIXES — at every master independently either one Full item or Start, children (each again by "
          "its own choice), End — every call succeeds and the bytes are enc_forest; options show up only in the size fields they govern. "
          "C09_script_irrelevant (Proofs/WriteScripts.v): for every specification and EVERY call sequence (rejected calls, raw writes, flush included) the "
          "per-call results, the byte counts after every call and the final bytes are the same for every destination that accepts bytes in any pattern of "
          "short writes and Interrupted errors. Global-placeholder paths are covered by the correspondence groups.", ""),
- "C19": ("Theorem C19_atomic: for every specification, state, tag tree (any nesting of Full) and options, a write that returns a non-I/O error "
+ "C19": ("FULL. Theorem C19_atomic: for every specification, state, tag tree (any nesting of Full) and options, a write that returns a non-I/O error "
          "leaves the complete writer state (open masters, working buffer, delivered bytes, destination script) exactly as it was; corollaries for the "
-         "deprecated call, for write_raw (no non-I/O failure exists) and for the rest of the run (C19_erase). The proof exposed defect D21 (fixed). "
-         "flush()/into_inner() failing with a size error are outside the theorem (they deliver nothing; stated in DESIGN).", ""),
+         "deprecated call, for write_raw (no non-I/O failure exists) for flush()/into_inner() failing with the size error (C19_flush_atomic, after the repair of D26; private_flush itself fails only with I/O errors) "
+         "and for every kind of call at once (C19_atomic_any); run level (C19_insert_rejected, Proofs/AuditWriter.v): inserting a call that is rejected with "
+         "a non-I/O error anywhere into any call sequence leaves the final state, the delivered bytes and every other call's result and byte count exactly "
+         "as without it. The proof exposed defect D21, the audit D26 (both fixed).", ""),
  "C10": ("Theorems over all call sequences, states, specifications and destination scripts: every call only appends to the delivered bytes (prefix "
          "of the final output); a successful call with no known-size master open leaves the working buffer empty; a call after which a known-size "
-         "master is open delivered nothing; buffering never touches the destination; flush()/into_inner() close every master and empty the buffer. "
+         "master is open delivered nothing; buffering never touches the destination; flush()/into_inner() close every master and empty the buffer; byte level (Proofs/AuditWriter.v): C10_flush_bytes / C10_into_inner_bytes — a successful "
+         "flush appends exactly the working buffer with every open known-size master's id and size field spliced in at its start (closed_buf); "
+         "C10_write_delivers / C10_raw_delivers — a successful call with no known-size master open appends exactly what was buffered; C10_raw_held; "
+         "C10_private_flush_bytes / C10_flush_failure — on an I/O error the buffer is emptied and the undelivered rest is lost (as in the code: drain(..)), "
+         "on the size error nothing changed. "
          "Snapshots (Proofs/Snapshots.v): after the calls that write a conforming document up to any point with only unknown-size masters open, the "
          "destination holds exactly the encoding of everything written so far (C10_snapshot_bytes_partial) and the strict reader parses it to exactly the "
          "tags written so far followed by the Ends of the open masters, innermost first (C10_snapshot_parses_partial / _tags_partial); with a known-size "
@@ -80,15 +92,22 @@ PROVED = {
          "below 2^63, in every reachable state and for every configuration — current offset, header length + declared size, offset + header + size "
          "(is_invalid_tag_size), every open master's data_start + size (also after try_recover enlarged it: size + skipped distance), the vint "
          "accumulator and marker shifts — each theorem names the Rust expression it bounds; buffer indices are bounded by the capacity, itself "
-         "<= max(cap0, 16, 2^56) without a limit (C17_buffer_bounded_bytes). Declared sizes never panic (C05_no_panic). Real heap usage (old+new "
+         "<= max(cap0, 16, 2^56) without a limit (C17_buffer_bounded_bytes). C17_size_above_limit_rejected / C17_size_error_no_growth (Proofs/AuditLimit.v): a header declaring a size above the limit makes the call "
+         "return the size error with the buffer no larger than max(before, 16); C17_cap_monotone_* / C17_final_is_peak: the buffer length never decreases, so "
+         "the bound on the final length bounds every intermediate one. Declared sizes never panic (C05_no_panic). Real heap usage (old+new "
          "buffer during growth, payload copies, queue) is an implementation-level oracle measured by the harness' counting allocator: partial by nature.",
          "The allocator and Vec/Box growth are not modelled; the measured bound 3*max(m, cap, 16)+4*len+64KiB is an oracle, not a theorem. "),
  "C13": ("Theorems: C13_tolerated_kinds_impossible — for every configuration, input and next()/try_recover() sequence, no reported error belongs to a "
          "tolerated class and, with unknown ids not tolerated, no successful item is or contains a raw tag (abstract reader; buffered machine for every "
-         "chunking/capacity by C04_refines); C13_header_error_kinds — every header error carries the offending element's offset and its kind is exactly "
-         "that of the first failing check (incomplete id/size: UnexpectedEof; malformed size: InvalidTagData; unknown id: InvalidTagId; chain mismatch: "
-         "HierarchyError; overrun of an enclosing known-size master: OversizedChildElement; above the limit: InvalidTagSize), each only when its class is "
-         "not tolerated; the size limit is enforced under every tolerance setting; C13_strict_is_prefix (Proofs/Monotone.v) — for inputs that start at a "
+         "chunking/capacity by C04_refines); C13_header_error_kinds — every reported header error implies its own cause (incomplete id/size: UnexpectedEof; malformed size or numeric "
+         "element longer than 8: InvalidTagData; unknown id: InvalidTagId; chain mismatch: HierarchyError; overrun of an enclosing known-size master: "
+         "OversizedChildElement; above the limit: InvalidTagSize), each only when its class is not tolerated, each with the element's offset except "
+         "HierarchyError (which has no position field in errors.rs); C13_header_error_priority (Proofs/AuditErrKinds.v) — the header check IS the decision "
+         "list first_failure: checks in the code's order (id bytes, size field, numeric size, id known, hierarchy, containment, limit), the first failing "
+         "one decides, and C13_reports_* give the completeness direction per check (e.g. unknown id and not tolerated => InvalidTagId whatever else is "
+         "wrong); C13_raw_only_for_undeclared_ids (Proofs/RawOnlyUndeclared.v) — under every configuration a raw tag, alone or inside a buffered master, "
+         "is handed out only for an id the specification does not declare; the explicit size limit c_max is arbitrary in the theorems — that the DEFAULT "
+         "limit stays in force when tolerances are set is checked by the correspondence run only; the size limit is enforced under every tolerance setting; C13_strict_is_prefix (Proofs/Monotone.v) — for inputs that start at a "
          "root element the items of the strict parse (with offsets) are a prefix of those of ANY more tolerant parse of the same bytes, for every buffered "
          "set (nested buffered masters included) and, via C04_refines, every capacity and chunking; the counterexample for mid-document starts is "
          "exhibited (C13_not_at_root_ex). Model note: with buffered masters the theorem needs bytes < 256 (true of u8).", ""),
@@ -98,21 +117,30 @@ PROVED = {
          "every input and every call sequence, the non-End items emitted before the first error tile the input from offset 0: each starts where the "
          "previous one's header (masters) or payload (elements) ends, each segment is id vint ++ size vint (++ payload of the announced length), no byte "
          "skipped or read twice; C03_end_offsets — every End carries exactly the offset of the Start it closes, implied ancestors of a mid-document "
-         "start carry 0 (all call sequences incl. try_recover, all tolerances); C03_buffered_tiles_and_offsets — complete runs with buffered sets: a Full "
+         "start carry 0 (all call sequences incl. try_recover, all tolerances); C03_end_offsets_rooted / _pinned / _based pin the base of that checker as for C06 "
+         "(strict configurations); C03_clean_drain_tiles_whole_input — a drain that ends with None (nothing buffered, any tolerances) tiles the WHOLE "
+         "input: no byte is left over; C03_buffered_tiles_and_offsets — complete runs with buffered sets: a Full "
          "item carries its Start's offset and the unrolled run tiles the input (via C08's simulation). The buffered machine reads the same for every "
          "chunking/capacity (C04_refines). After an error tiling is not claimed (the offending element's bytes are consumed, try_recover skips).", ""),
  "C18": ("Theorems over a Gallina model of the derive pipeline (attribute parsing order, Crc32/Void appending, duplicate-id check, validate_path, "
          "generated tables): for every accepted declaration the generated table has pairwise distinct ids and reports exactly the declared "
          "type/resolved path per id and unknown/empty otherwise; Crc32/Void/raw-tag present; spec_ok (every named parent is a master) and hence the "
-         "iterator's implied-parent seeding never hits the 'bad specification' panic; constructor/accessor tables; the easy_ebml lowering; one "
+         "iterator's implied-parent seeding never hits the 'bad specification' panic (C18_no_implied_parent_panic); the writer never panics on tags a generated "
+         "enum can express — variants fix id and value kind, RawTag may carry any id (C18_writer_no_panic, after the repair of D27; C18_writer_raw_written); "
+         "'accepted' is characterised exactly (C18_accepted_iff / C18_derive_full_iff: one id, one recognised type, at most one well-formed path per variant; "
+         "distinct ids; every path = its master parent's path ++ that parent); constructor/accessor tables; the easy_ebml lowering; one "
          "general rejection theorem per malformation class. Tied to the code by (a) calling the real impl_ebml_specification / easy_ebml entry "
          "points as a library on generated good and systematically broken declarations and reading the tables back from the generated token "
          "streams (both front-ends compared), (b) enums compiled with the real macros and probed at run time.",
-         "syn/quote/proc-macro2, rustc and macro hygiene are not modelled; duplicate variant names / reserved names are left to rustc (model mirrors the macro). "),
+         "Both front-ends run the same code by definition of easy_derive; attributes the macro does not know are ignored by it (only an unknown data_type value is "
+         "rejected) and left to rustc. syn/quote/proc-macro2, rustc and macro hygiene are not modelled; duplicate variant names / reserved names are left to rustc (model mirrors the macro). "),
  "C01": ("Theorem C01_roundtrip_partial: for every strict configuration and every conforming document (arbitrary nesting depth, unsigned/signed/float/"
          "UTF-8/binary values over their whole ranges, payloads of every length the width can carry, every explicit size width 1-8 or default options, any "
          "subset of masters written with unknown size), writing it tag by tag succeeds at every call, emits exactly the structural encoding enc_forest, and "
-         "the strict reader yields exactly the written tags (masters as Start/End pairs), then None. Reader half (C01_reader_roundtrip_partial) holds for "
+         "the strict reader yields exactly the written tags (masters as Start/End pairs), then None; the _strong forms (C01_roundtrip_partial_strong and "
+         "the five siblings, Proofs/AuditRoundTrip.v) state the read on the outcome list itself: it is exactly the document's items with their offsets "
+         "followed by the clean end ONone — no error, no budget outcome (the older statements compare through out_tag, which cannot tell an error from a "
+         "clean end: C01_out_tag_blind). Reader half (C01_reader_roundtrip_partial) holds for "
          "any encoding choices incl. non-canonical payloads, with offsets; proved by nested induction on the tree with the lazily emitted Ends as an "
          "invariant over the reader's stack; transferred to the buffered machine for every capacity and chunking. PARTIAL: declared paths without "
          "global placeholders. C01_full_roundtrip_partial: the same with masters given as Full items. C01_reader_roundtrip_known_partial (Proofs/RoundTripKnown.v): "
@@ -129,7 +157,8 @@ PROVED = {
  "C02": ("PARTIAL. Theorem C02_fixpoint_partial: for every strict configuration and every conforming document in ANY encoding (zero-padded or empty "
          "integers, 4-byte floats, any size width incl. 8-byte fields, any subset of unknown-size masters closed by a following element or EOF), the "
          "tags the reader yields are all accepted by the writer under default options, its output is the canonical encoding, and reading that yields the "
-         "identical tag sequence (values keep their meaning: decoded values are proved to lie in the range the encoders invert, incl. widened f32). "
+         "identical tag sequence — in the _strong forms (C02_fixpoint_partial_strong, _known_, _cut_, _prefix_): both reads are exactly determined outcome lists "
+         "ending in the clean end ONone, i.e. error-free (values keep their meaning: decoded values are proved to lie in the range the encoders invert, incl. widened f32). "
          "C02_fixpoint_cut_partial / C02_fixpoint_prefix_partial (Proofs/FixpointCut.v): the same for streams cut on a tag boundary, whose known-size "
          "masters declare more bytes than are present (read without error: EOF closes the open masters) — the re-written output is the complete document "
          "with the actual sizes, and reads back as the same tags; for every prefix of a conforming document that ends on a tag boundary. "
@@ -141,9 +170,13 @@ PROVED = {
          " ('Strict configuration' in these theorems = the three tolerances off; the document-level theorems also assume nothing buffered and end-of-stream closing on, the default — c_buffered = [] and c_emit_eof = true are explicit hypotheses.)", ""),
  "C06": ("Theorems: (Proofs/Nesting.v) C06_strict_items_well_nested — for every strict configuration (unknown ids and hierarchy errors not tolerated, "
          "nothing buffered), every byte input and every sequence of next()/try_recover()/drain operations, the successfully emitted tags are accepted "
-         "by an independent checker started from some base chain (empty when reading from a root; the implied ancestors of the first placeholder-free "
-         "element otherwise): every End closes the most recent unmatched Start or an implied ancestor, every Start/element has an id known to the "
-         "specification and, once the position is determined, its declared path matches exactly the chain of open masters; C06_eof_closes_all. "
+         "by an independent checker started from some base chain of implied ancestors: every End closes the most recent unmatched Start or an implied ancestor, every Start/element has an id known to the "
+         "specification and, once the position is determined, its declared path matches exactly the chain of open masters; C06_eof_closes_all. The base is pinned down by (Proofs/AuditNesting.v): C06_strict_items_well_nested_rooted / C06_eof_closes_all_rooted / C06_run_extents_rooted — "
+         "when the first item is a root element the checker accepts from the EMPTY base (whole runs, errors and recoveries included); "
+         "C06_clean_items_pinned / C06_drain_items_pinned / C06_eof_closes_all_pinned — otherwise, up to the first error, the items before the first "
+         "placeholder-free element are accepted from the empty base and the whole sequence from exactly the implied ancestor chain of that element's "
+         "declared path (C06_base_determined: no other base is possible); C06_strict_items_based — for whole runs a weaker 'Based' form (after an error "
+         "the pinned form is false: C06_ex_pinned_after_error_counterexample); C06_ex_base_absorbs shows an arbitrary base would absorb stray Ends. "
          "(Proofs/Extents.v) with oversized children not tolerated: C06_contained — every reachable state keeps the cursor inside every open known-size "
          "master, ranges nested (grow_frames of try_recover preserves it); C06_element_inside — every element read lies inside the byte range of each "
          "enclosing known-size master, a known-size master's whole declared range too; C06_end_at_exhaustion — the End of a known-size master is queued "
@@ -153,7 +186,8 @@ PROVED = {
  "C07": ("Theorems: the closing rule (count_ended = the largest k such that the k innermost open masters have unknown size and the outermost of them is "
          "ended by the element; nothing closes below a known-size master); C07_items_partial / C07_encoding_choices_irrelevant_partial: every conforming "
          "document reads as its items with each unknown-size master's End right before the next element outside of it or at the end of input, so two "
-         "encodings of the same tags (any known/unknown choice, any widths) read as the same tag sequence. Restricted to paths without global "
+         "encodings of the same tags (any known/unknown choice, any widths) read as the same tag sequence (both encodings must conform; C07_known_reencoding_partial: for the all-known re-encoding one conformance hypothesis "
+         "suffices when the sizes fit the limit — without that it is false, C07_known_conf_counterexample: the limit applies to known sizes only). Restricted to paths without global "
          "placeholders; global elements after unknown-size masters are covered by the correspondence groups.", ""),
  "C05": ("Theorems: C05_no_panic — for every configuration whose specification passes the derive check (implied_ok), every byte input and every "
          "next()/try_recover() sequence, no call of the abstract reader panics (the model has a Panic outcome for: the two checked operations of read_vint, a missing implied parent "
@@ -163,7 +197,11 @@ PROVED = {
          "bytes) never increases and every successful header consumes a byte; C05_drain_within_limit / C05_drain_length — a full drain yields at most "
          "slack + 2*|input| + 1 results (slack = deepest declared path, for the implied ancestors), so it ends within the call bound whenever paths are "
          "<= 63 deep; all transferred to the buffered machine for every capacity and calm script; decoders total; an exhausted reader with no open master stays exhausted "
-         "(C05_fused); a source I/O error surfaces as an error (after the repair of D25 also inside try_recover); try_recover never moves backwards and "
+         "(C05_fused); source I/O errors surface (Proofs/AuditIO.v): C05_next_reports_fail / C05_try_recover_reports_fail — a call that consumes a Fail of the source "
+         "consumes exactly one, as its last event, and reports it (next: at once, or queued behind the Ends it still owes and delivered by the following "
+         "call); C05_next_accounts / C05_run_accounts_for_fails / C05_run_reports_every_fail — over every call sequence the error codes reported are, as a "
+         "multiset, exactly those of the Fail events consumed: none dropped, none invented (the order can differ: C05_io_ex); C05_none_is_fixed_point / "
+         "C05_fused_open — once next() returned None on an exhausted input it returns None forever, open masters or not; try_recover never moves backwards and "
          "fails only with end of input or the source's error. The buffered-machine statements hold for calm scripts (no pause, no injected fault); runs "
          "with injected faults are covered by the I/O theorems and the correspondence run. Model notes found by "
          "the termination proof: bytes must be < 256 (true of u8), and the run bound 4*|input|+64 of the model is exceeded by specifications deeper than "
@@ -199,7 +237,7 @@ PROVED = {
          "all remaining tags follow; C14_recovery_loses_nothing_partial — the tag sequence, error and recovery aside, equals that of the undamaged "
          "document; both also for the second document class (all masters of known size, declared paths with global placeholders: "
          "C14_damaged_run_known_partial, C14_recovery_loses_nothing_known_partial); try_recover never moves backwards and fails only with end of input or an error of the source "
-         "(all states; the latter since the repair of D25). Header checks are shown to depend only on the parse fields of the state. The junk condition is semantic (per position); the "
+         "(all states; C14_recover_reports_io_error / C14_recover_errors_buffered on the buffered machine with failing sources; the latter since the repair of D25). Header checks are shown to depend only on the parse fields of the state. The junk condition is semantic (per position); the "
          "generator of the correspondence run draws junk from byte classes without ids in the specification and computes the premise independently. "
          "For the second class the junk must come after the document position is determined (hypothesis jstart: a placeholder-free element "
          "precedes it at top level), since before that point the reader judges no hierarchy and the junk condition has no meaning."
